@@ -206,6 +206,7 @@ class Ref:
                     else:
                         r = ('ok', ('default', m, tuple(sorted(last_kwargs.items(), key=lambda kv: kv[0]))))
                 else:
+                    self.own_failures.add(m)        # the destination itself fails (exhausted, no default)
                     r = ('fail', frozenset({'rec'}))
                 break
             k += 1
